@@ -29,11 +29,18 @@ def program(rng):
     return txt
 
 
+class Slow(Exception):
+    pass
+
+
 def run_cli(files, stdin_text, args, timeout=60):
     env = dict(os.environ)
     env['PYTHONPATH'] = REPO
     env['PYTHONHASHSEED'] = '0'
-    p = subprocess.run(['/venv/bin/python', '-m', 'telingo'] + files + args, input=(stdin_text or '').encode(), stdout=subprocess.PIPE, stderr=subprocess.PIPE, timeout=timeout, env=env, cwd='/')
+    try:
+        p = subprocess.run(['/venv/bin/python', '-m', 'telingo'] + files + args, input=(stdin_text or '').encode(), stdout=subprocess.PIPE, stderr=subprocess.PIPE, timeout=timeout, env=env, cwd='/')
+    except subprocess.TimeoutExpired:
+        raise Slow()      # a program with very many answer sets: the run is not compared (performance is outside the property; hangs on small inputs are the business of C15)
     return p.returncode, p.stdout.decode(errors='replace'), p.stderr.decode(errors='replace')
 
 
@@ -182,7 +189,10 @@ def run(ctx):
     cex, hist, answers, nontriv = [], {}, 0, set()
     try:
         for c in cs:
-            v, tag = one(ctx, c, tmp)
+            try:
+                v, tag = one(ctx, c, tmp)
+            except Slow:
+                v, tag = None, 'skipped-slow'
             hist[tag.split(':')[0] + ':' + c['mode']] = hist.get(tag.split(':')[0] + ':' + c['mode'], 0) + 1
             if tag.startswith('ok:'):
                 answers += int(tag[3:])
@@ -204,6 +214,8 @@ def replay(ctx, payload):
     tmp = tempfile.mkdtemp(prefix='c10_', dir=os.path.join(os.path.dirname(os.path.dirname(os.path.dirname(os.path.abspath(__file__)))), '_build'))
     try:
         v, tag = one(ctx, payload['input'], tmp)
+    except Slow:
+        v = None
     finally:
         shutil.rmtree(tmp, ignore_errors=True)
     return v is not None
